@@ -1110,6 +1110,10 @@ type HCase struct {
 	Reqs       int      `json:"reqs"`
 	Pages      int      `json:"pages"`
 	Engine     bool     `json:"engine"`
+	Late       bool     `json:"late"`       // completions taken from the MMU port 0-150 cycles late
+	MaxLate    int      `json:"maxlate"`    // largest delay used
+	Procs      int      `json:"procs"`      // processes (PIDs) with pages at the same virtual addresses
+	ExtraCtx   int      `json:"extractx"`   // contexts made by InitWithExistingPID
 	Checked    int      `json:"checked"`    // requests whose pages were compared after the last page acknowledgement
 	MultiGroup int      `json:"multigroup"` // requests with >= 2 requesting GPUs
 	MultiPage  int      `json:"multipage"`  // groups with >= 2 pages
@@ -1196,10 +1200,10 @@ type hrunner struct {
 	// physical memory of all devices, one entry per physical page; the harness
 	// executes every PageMigrationReqToCP as a page copy when it acknowledges it
 	phys     map[uint64][]byte
-	allVAs   []uint64
-	snap     map[uint64]hsnap // state of every page when the current request could start
-	migTaken []hmig           // page requests taken from the GPU port, not yet acknowledged
-	migSeen  []hmig           // every page request of the current request
+	allVAs   []pkey
+	snap     map[pkey]hsnap // state of every page when the current request could start
+	migTaken []hmig         // page requests taken from the GPU port, not yet acknowledged
+	migSeen  []hmig         // every page request of the current request
 	checked  int
 }
 
@@ -1211,6 +1215,8 @@ func addOnce(l []uint64, x uint64) []uint64 {
 	}
 	return append(l, x)
 }
+
+type pkey struct{ pid, va uint64 }
 
 type hsnap struct {
 	paddr, dev uint64
@@ -1237,14 +1243,14 @@ func (r *hrunner) page(pa uint64) []byte {
 	return b
 }
 
-func (r *hrunner) initMem(pid uint64, vas []uint64) {
+func (r *hrunner) initMem(vas []pkey) {
 	r.phys = map[uint64][]byte{}
 	r.allVAs = vas
-	for _, va := range vas {
-		pg, _ := r.pt.Find(vm.PID(pid), va)
+	for _, k := range vas {
+		pg, _ := r.pt.Find(vm.PID(k.pid), k.va)
 		b := make([]byte, 4096)
 		for i := range b {
-			b[i] = genByte(va>>12*4099+uint64(i), 257, 3)
+			b[i] = genByte(k.va>>12*4099+k.pid*977+uint64(i), 257, 3)
 		}
 		r.phys[pg.PAddr] = b
 	}
@@ -1268,14 +1274,15 @@ func (r *hrunner) checkPages() {
 			moved[va] = g[0]
 		}
 	}
-	for _, va := range r.allVAs {
-		old := r.snap[va]
-		pg, found := r.pt.Find(vm.PID(q.PID), va)
+	for _, k := range r.allVAs {
+		va := k.va
+		old := r.snap[k]
+		pg, found := r.pt.Find(vm.PID(k.pid), va)
 		if !found {
-			bad = append(bad, fmt.Sprintf("page 0x%x lost its page-table entry", va))
+			bad = append(bad, fmt.Sprintf("page 0x%x of process %d lost its page-table entry", va, k.pid))
 			continue
 		}
-		if dst, ok := moved[va]; ok {
+		if dst, ok := moved[va]; ok && k.pid == q.PID {
 			if pg.DeviceID != dst {
 				bad = append(bad, fmt.Sprintf("page 0x%x requested by GPU %d is mapped to device %d", va, dst, pg.DeviceID))
 			}
@@ -1286,7 +1293,7 @@ func (r *hrunner) checkPages() {
 				bad = append(bad, fmt.Sprintf("pages 0x%x and 0x%x share physical page 0x%x", o, va, pg.PAddr))
 			}
 			newPA[pg.PAddr] = va
-			if pg.VAddr != va || uint64(pg.PID) != q.PID || !pg.Valid {
+			if pg.VAddr != va || uint64(pg.PID) != k.pid || !pg.Valid {
 				bad = append(bad, fmt.Sprintf("page 0x%x: entry has vaddr 0x%x pid %d valid %v", va, pg.VAddr, pg.PID, pg.Valid))
 			}
 			diff := 0
@@ -1302,10 +1309,10 @@ func (r *hrunner) checkPages() {
 			}
 		} else {
 			if pg.PAddr != old.paddr || pg.DeviceID != old.dev {
-				bad = append(bad, fmt.Sprintf("page 0x%x is not part of the request, its mapping changed from 0x%x/device %d to 0x%x/device %d",
-					va, old.paddr, old.dev, pg.PAddr, pg.DeviceID))
+				bad = append(bad, fmt.Sprintf("page 0x%x of process %d is not part of the request (process %d), its mapping changed from 0x%x/device %d to 0x%x/device %d",
+					va, k.pid, q.PID, old.paddr, old.dev, pg.PAddr, pg.DeviceID))
 			} else if string(r.page(pg.PAddr)) != string(old.data) {
-				bad = append(bad, fmt.Sprintf("page 0x%x is not part of the request, its contents changed", va))
+				bad = append(bad, fmt.Sprintf("page 0x%x of process %d is not part of the request, its contents changed", va, k.pid))
 			}
 		}
 	}
@@ -1338,11 +1345,11 @@ func (r *hrunner) startReq() {
 	r.cur = q
 	r.nDrainR, r.nShootR, r.nMigR, r.nRestartR, r.nRdma, r.takenMig = 0, 0, 0, 0, 0, 0
 	r.oldPAddr = map[uint64]uint64{}
-	r.snap = map[uint64]hsnap{}
+	r.snap = map[pkey]hsnap{}
 	r.migTaken, r.migSeen = nil, nil
-	for _, va := range r.allVAs {
-		if pg, found := r.pt.Find(vm.PID(q.PID), va); found {
-			r.snap[va] = hsnap{pg.PAddr, pg.DeviceID, append([]byte{}, r.page(pg.PAddr)...)}
+	for _, k := range r.allVAs {
+		if pg, found := r.pt.Find(vm.PID(k.pid), k.va); found {
+			r.snap[k] = hsnap{pg.PAddr, pg.DeviceID, append([]byte{}, r.page(pg.PAddr)...)}
 		}
 	}
 	for _, g := range q.Groups {
@@ -1402,6 +1409,9 @@ func (r *hrunner) canonCmd(m sim.Msg) *HCmd {
 		if pg, ok := r.pt.ReverseLookup(x.ToWriteToPhysicalAddress); ok {
 			c.VAddr = pg.VAddr
 			// monitor: addresses of the request
+			if r.cur != nil && uint64(pg.PID) != r.cur.PID {
+				r.flag(fmt.Sprintf("migration request for process %d writes to a page of process %d", r.cur.PID, pg.PID))
+			}
 			if pg.DeviceID != c.G+1 || !pg.IsMigrating {
 				r.flag(fmt.Sprintf("migration request to GPU %d writes to a page of device %d (migrating=%v)", c.G, pg.DeviceID, pg.IsMigrating))
 			}
@@ -1565,7 +1575,15 @@ func (r *hrunner) apply(e *HEvent) (crashed bool) {
 	return false
 }
 
-func genHandshake(rng *vh.Rng) HCase {
+type hproc struct {
+	ctxs  []*driver.Context
+	pid   uint64
+	onDev map[int][]uint64
+}
+
+// genHandshake: late = the MMU side takes every completion 0-150 cycles late
+// (back-pressure on the one-entry MMU port) while further requests are queued.
+func genHandshake(rng *vh.Rng, late bool) HCase {
 	const log2 = 12
 	engine := sim.NewSerialEngine()
 	pt := vm.NewPageTable(log2)
@@ -1584,25 +1602,48 @@ func genHandshake(rng *vh.Rng) HCase {
 		d.RegisterGPU(cp, driver.DeviceProperties{CUCount: 4, DRAMSize: 64 << log2})
 		d.RemotePMCPorts = append(d.RemotePMCPorts, pmc)
 	}
-	ctx := d.Init()
-	pid := uint64(ctx.VerifPID())
-	// pages per device
-	onDev := map[int][]uint64{}
-	var allVAs []uint64
-	for g := 1; g <= ngpu; g++ {
-		d.SelectGPU(ctx, g)
-		n := uint64(2 + rng.Intn(9))
-		ptr := d.AllocateMemory(ctx, n<<log2)
-		for i := uint64(0); i < n; i++ {
-			onDev[g] = append(onDev[g], uint64(ptr)+i<<log2)
-			allVAs = append(allVAs, uint64(ptr)+i<<log2)
+	c := HCase{NGPU: ngpu, Late: late}
+	// 1-3 processes; every process starts its virtual addresses at the same
+	// base, so pages of different processes share virtual addresses.  Extra
+	// contexts of existing processes (InitWithExistingPID) are created between
+	// the Inits, so the position of a context says nothing about its PID.
+	nproc := 1 + rng.Intn(3)
+	var procs []*hproc
+	for p := 0; p < nproc; p++ {
+		ctx := d.Init()
+		procs = append(procs, &hproc{ctxs: []*driver.Context{ctx}, pid: uint64(ctx.VerifPID()), onDev: map[int][]uint64{}})
+		for x := rng.Intn(3); x > 0; x-- {
+			o := procs[rng.Intn(len(procs))]
+			o.ctxs = append(o.ctxs, d.InitWithExistingPID(o.ctxs[rng.Intn(len(o.ctxs))]))
+			c.ExtraCtx++
 		}
 	}
-	r.initMem(pid, allVAs)
-	c := HCase{NGPU: ngpu}
+	c.Procs = nproc
+	var allVAs []pkey
+	for _, pr := range procs {
+		for g := 1; g <= ngpu; g++ {
+			ctx := pr.ctxs[rng.Intn(len(pr.ctxs))]
+			d.SelectGPU(ctx, g)
+			n := uint64(2 + rng.Intn(9))
+			if nproc > 1 {
+				n = uint64(2 + rng.Intn(4))
+			}
+			ptr := d.AllocateMemory(ctx, n<<log2)
+			for i := uint64(0); i < n; i++ {
+				pr.onDev[g] = append(pr.onDev[g], uint64(ptr)+i<<log2)
+				allVAs = append(allVAs, pkey{pr.pid, uint64(ptr) + i<<log2})
+			}
+		}
+	}
+	r.initMem(allVAs)
 	nreq := 1 + rng.Intn(3)
+	if late {
+		nreq = 2 + rng.Intn(2)
+	}
 	var reqs []*HReq
 	for j := 0; j < nreq; j++ {
+		pr := procs[rng.Intn(nproc)]
+		onDev, pid := pr.onDev, pr.pid
 		host := 1 + rng.Intn(ngpu)
 		if len(onDev[host]) == 0 {
 			continue
@@ -1691,7 +1732,72 @@ func genHandshake(rng *vh.Rng) HCase {
 	}
 	kinds := []string{"Drain", "Shoot", "Mig", "Restart", "RdmaRestart"}
 	wt := []int{1 + rng.Intn(10), 1 + rng.Intn(5), 1 + rng.Intn(5), 1 + rng.Intn(10), 1 + rng.Intn(10)}
-	for i := 0; i < 150+80*c.Pages && !crashed; i++ {
+	if late {
+		takeAt := -1
+		pagesOf := func(q *HReq) int {
+			m := 0
+			for _, g := range q.Groups {
+				m += len(g) - 1
+			}
+			return m
+		}
+		for round := 0; round < 2500 && !crashed; round++ {
+			busy := false
+			if next < len(reqs) && r.mmuPort.PeekIncoming() == nil {
+				if e := run(HEvent{E: "dm", Req: reqs[next]}); e.Acc != nil && *e.Acc {
+					next++
+					busy = true
+				}
+			}
+			if r.gpuPort.PeekIncoming() != nil || r.mmuPort.PeekIncoming() != nil {
+				busy = true
+			}
+			run(HEvent{E: "tick"})
+			for r.gpuPort.PeekOutgoing() != nil && !crashed {
+				run(HEvent{E: "tg"})
+				busy = true
+			}
+			for _, k := range kinds {
+				for len(r.outst[k]) > 0 {
+					// the driver has ONE slot for a completion that the port refused: a third pending
+					// completion would overwrite it (documented limitation); the MMU side of these
+					// scenarios is at most one whole migration late
+					if k == "Mig" && r.cur != nil && r.nMigR+1 == pagesOf(r.cur) {
+						for it := 0; it < 80 && r.migAllDone-r.done >= 2 && !crashed; it++ {
+							if r.mmuPort.PeekOutgoing() != nil {
+								run(HEvent{E: "tm"})
+								takeAt = -1
+							}
+							run(HEvent{E: "tick"})
+						}
+					}
+					answer(k)
+					busy = true
+				}
+			}
+			if r.mmuPort.PeekOutgoing() != nil {
+				busy = true
+				if takeAt < 0 {
+					dl := rng.Intn(151)
+					if rng.Intn(4) == 0 {
+						dl = rng.Intn(6)
+					}
+					takeAt = round + dl
+					if dl > c.MaxLate {
+						c.MaxLate = dl
+					}
+				}
+				if round >= takeAt {
+					run(HEvent{E: "tm"})
+					takeAt = -1
+				}
+			}
+			if !busy {
+				break
+			}
+		}
+	}
+	for i := 0; i < 150+80*c.Pages && !crashed && !late; i++ {
 		switch rng.Pick(wt...) {
 		case 0:
 			run(HEvent{E: "tick"})
@@ -1817,7 +1923,7 @@ func genHandshakeEngine(rng *vh.Rng) HCase {
 	}
 	q := &HReq{Src: 50, Accessing: acc, Groups: [][]uint64{{2, uint64(ptr), uint64(ptr) + 1<<log2}}, Host: 1,
 		PID: uint64(ctx.VerifPID()), PageSize: 1 << log2, Top: true, Order: []uint64{}, ROrder: []uint64{}}
-	r.initMem(q.PID, []uint64{uint64(ptr), uint64(ptr) + 1<<log2})
+	r.initMem([]pkey{{q.PID, uint64(ptr)}, {q.PID, uint64(ptr) + 1<<log2}})
 	c := HCase{NGPU: ngpu, Reqs: 1, Pages: 2, Engine: true}
 	crashed := false
 	run := func(e HEvent) {
@@ -1959,7 +2065,7 @@ func main() {
 		rng := vh.NewRng(*seed ^ 0xabcd)
 		hcs := []HCase{}
 		for i := 0; i < *hsN; i++ {
-			hcs = append(hcs, genHandshake(rng.Fork()))
+			hcs = append(hcs, genHandshake(rng.Fork(), i%3 == 2))
 			if i%8 == 0 {
 				hcs = append(hcs, genHandshakeEngine(rng.Fork()))
 			}
